@@ -680,7 +680,7 @@ package badger
 // sends nothing; the end-of-transaction entry carries exactly the commit timestamp; when the
 // request cannot be sent the commit timestamp is marked done and the error is returned.
 //@ func (*Txn).commitAndSend
-//@   props C03 C36 C27
+//@   props C03 C36 C27 C34
 //@   light
 //@   assert[lock-before-ts] before call newCommitTs : held(txn.db.orc.writeChLock) && arg0 == txn.db.orc && arg1 == txn
 //@   assert[lock-until-sent] before call sendToWriteCh : held(txn.db.orc.writeChLock) && !ret1(newCommitTs#1)
@@ -1215,10 +1215,10 @@ package badger
 // flight (C15). Tombstones may be dropped only when no table outside this compaction can hold
 // an older version: for an L0 to L0 compaction the L0 tables left out can (C12).
 //@ func (*levelsController).subcompact
-//@   props C12 C13 C15
+//@   props C12 C13 C15 C36
 //@   light
 //@   assert[discard-ts-from-oracle] before call discardAtOrBelow : arg0 == s.kv.orc
-//@   assert[overlap-below-output] before call checkOverlap : arg2 == cd.nextLevel.level + 1
+//@   assert[overlap-below-output] before call checkOverlap : arg2 == cd.nextLevel.level + 1 && arg1 == ret(allTables#1) && arg0 == s
 //@   assert[gc-clamp] before closure addKeys : s.kv.gcActive.v != 0 && s.kv.gcDiscardTs.v > 0 ==> discardTs <= s.kv.gcDiscardTs.v
 //@   assert[discard-ts-not-raised] before closure addKeys : discardTs <= ret(discardAtOrBelow#1)
 //@   assert[l0-to-l0-keeps-tombstones] before closure addKeys : cd.thisLevel.level == 0 && cd.nextLevel.level == 0 ==> hasOverlap
@@ -1753,7 +1753,7 @@ package badger
 
 // Load: after every loaded entry the next timestamp is above its version.
 //@ func (*DB).Load
-//@   props C11 C24
+//@   props C11 C24 C34
 //@   light
 //@   loop 2 invariant[above-loaded] rangeindex >= 0 && rangeindex < len(list.Kv) && list.Kv[rangeindex].Version != ^uint64(0) ==> db.orc.nextTxnTs > list.Kv[rangeindex].Version
 //@   loop 2 invariant[largest-version-not-loaded] rangeindex >= 0 && rangeindex < len(list.Kv) ==> list.Kv[rangeindex].Version != ^uint64(0)
@@ -1867,6 +1867,13 @@ package badger
 //@   light
 //@   assert[max-version-covers-entry] before call KeyWithTs : arg0 == kv.Key && arg1 == kv.Version && sw.maxVersion >= kv.Version
 //@   assert[value-copied] before call Copy : arg0 == kv.Value
+
+//@ func (*compactDef).allTables
+//@   props C12 C36
+//@   light
+//@   assert[top-then-bottom] before call append#2 : sameRegion(arg1, cd.bot) || len(cd.bot) == 0
+//@   assert[top-first] before call append#1 : sameRegion(arg1, cd.top) || len(cd.top) == 0
+//@   assert[room-for-both] before return : len(result) == len(cd.top) + len(cd.bot)
 
 // checkOverlap: the key range of the given tables is tested against every level from `lev`
 // downwards, and one overlapping table is enough.
